@@ -119,8 +119,8 @@ def chunk_rule(ck, prog):
                 if not any(n.endswith("slice::len") for n in g.callee_names_in(nw)):
                     continue
                 iw0 = g.walk(ops=[idx_side], at=c.node, through=default_transparent)
-                if any(n.endswith("slice::len") for n in g.callee_names_in(iw0)):
-                    continue
+                if any(n.endswith("slice::len") for n in g.callee_names_in(iw0)) and not any(n.endswith("Iterator::enumerate") for n in g.callee_names_in(iw0)):
+                    continue     # this side is a count, not a counter (a counter taken from enumerate() may share a loop with length-driven inner loops)
                 if const_int(idx_side) is not None or _root_local(f, g, idx_side, c.node) is None and not any(
                         n.endswith("Iterator::enumerate") for n in g.callee_names_in(iw0)):
                     continue
@@ -531,4 +531,4 @@ def zero_pad_rule(ck, prog):
                   f"{label}::hash: a chunk of variable length is copied into a staging buffer re-initialised since the chunk was fetched", loc=f.loc(b, T),
                   detail=None if ok else "on some path from the loop's `next()` to this copy the buffer still holds the previous chunk: the bytes behind the "
                                          "short chunk (and behind the padding byte) are stale")
-    ck.floor("ZPAD: variable-length chunk copies in Rescue byte hashers", n, 3)
+    ck.floor("ZPAD: variable-length chunk copies in Rescue byte hashers", n, 2)   # a hasher that copies element-wise has no such site
